@@ -182,6 +182,54 @@ func runC22(r *Report) {
 				r.ObSite("R22a", s, "return:pickAZ", ok, "a pickAZ result is returned only when it is not -1")
 				continue
 			}
+			// an unexported helper that is handed the number of nodes: every value it returns is -1 or
+			// proved within [0, that parameter) in the helper, and the argument is len(nodes)
+			if call, isc := Strip(v).(*ssa.Call); isc {
+				if h := call.Call.StaticCallee(); h != nil && h.Blocks != nil && h.Pkg == cl.Pkg && !isExportedName(h.Name()) && h.Signature.Recv() == nil {
+					okH, whyH := false, "no parameter of the helper bounds its result"
+					for k, prm := range h.Params {
+						if !isIntType(prm.Type()) || k >= len(call.Call.Args) {
+							continue
+						}
+						// the argument is len(nodes) (possibly converted)
+						a := call.Call.Args[k]
+						if cv, iscv := a.(*ssa.Convert); iscv {
+							a = cv.X
+						}
+						if la := c.Lin(a); !la.OK || la.String() != ln.String() {
+							continue
+						}
+						hc := NewBCtx(h)
+						paramLowerFromCallers(p, h, hc)
+						hc.induction()
+						all, any := true, false
+						for _, hb := range h.Blocks {
+							hret, isr := hb.Instrs[len(hb.Instrs)-1].(*ssa.Return)
+							if !isr || len(hret.Results) != 1 {
+								continue
+							}
+							any = true
+							if kk, isk := ConstInt(hret.Results[0]); isk && kk == -1 {
+								continue
+							}
+							hl := hc.Lin(hret.Results[0])
+							pl := hc.Lin(prm)
+							if !(hc.ProveAt(hb, hl) && hc.ProveAt(hb, pl.Add(hl, -1).Add(konst(1), -1))) {
+								all = false
+								whyH = "helper return " + Desc(hret.Results[0]) + " is not proved within [0, " + prm.Name() + ")"
+							}
+						}
+						if all && any {
+							okH, whyH = true, "helper "+FuncName(h)+" returns -1 or an index below its parameter "+prm.Name()+", which receives len(nodes)"
+						}
+					}
+					r.ObSite("R22a", s, "return:index", okH, "a returned node index must be proved within [0, len(nodes)); "+whyH)
+					if okH {
+						boundsObligations(r, "R22f", h, func(bc *BCtx) { paramLowerFromCallers(p, h, bc) }, nil)
+					}
+					continue
+				}
+			}
 			l := c.Lin(v)
 			lo := c.ProveAt(b, l)
 			hi := c.ProveAt(b, ln.Add(l, -1).Add(konst(1), -1))
